@@ -154,6 +154,7 @@ func loadWorld(repo string, specDir string) (*World, error) {
 	for a, b := range w.cs.Aliases {
 		w.aliases[a] = b
 	}
+	w.applySweeps()
 	for _, sf := range w.cs.Specs {
 		if _, dup := w.specByName[sf.Name]; dup {
 			return nil, fmt.Errorf("%s:%d: duplicate spec func %s", sf.File, sf.Line, sf.Name)
